@@ -70,7 +70,7 @@ def simplify(plan):
 def build(plan, sim):
     if plan["source"] == "real":
         cfg = plan["cfg"]
-        data = nodes.serialize(cfg, plan["ops"], None)
+        data = nodes.serialize_input(cfg, plan["ops"], None)
         return data, nodes.wrote_delimited(cfg), nodes.PHYS[cfg["physical"]]
     data, frames, stats, r = c04.build_stream(plan, sim)
     if frames and not frames[0].rows:
